@@ -62,7 +62,9 @@ func c15Check(c c15Case, rec *evid.Recorder) *Fail {
 		return failf("comments alter the compact output\nwith    %q\nwithout %q\nsrc %q", compact, cp, c.Src)
 	}
 	srcToks := astTokens(p)
-	for _, cfg := range []Cfg{{Pretty: true, Indent: 99}, {Pretty: true, Indent: -1, NoSemi: true}, {Pretty: true, Indent: 0}} {
+	// the same clauses with a source map requested (the printer takes different
+	// paths when a mapper is attached), and with the same tree printed repeatedly
+	for _, cfg := range []Cfg{{Pretty: true, Indent: 99}, {Pretty: true, Indent: -1, NoSemi: true}, {Pretty: true, Indent: 0}, {Pretty: true, Indent: 99, Map: true}, {Pretty: true, Indent: 4, NoSemi: true, Map: true}} {
 		out := compile(p, cfg).Code
 		found := markerRE.FindAllStringSubmatchIndex(out, -1)
 		// 1. each marker exactly once, verbatim (modulo trailing spaces), in source order
